@@ -12,8 +12,8 @@ import (
 
 func init() {
 	register(&PropMeta{
-		ID:    "C12",
-		Level: "other",
+		ID:          "C12",
+		Level:       "other",
 		Explanation: "Decides the structural clauses: (R1) ante/dealer/SB/BB handed to the hand engine and the five fields of the published hand-blind record are each copied from the same-named field of the table's blind level; (R2) the published hand-blind record is a fresh object, never an alias of the mutable level; (R3) all those reads come from one by-value snapshot of the level, or both readers and the blind-update writer run under the engine mutex — otherwise an update during hand start makes the charged and the published blinds disagree; (R4) the level's fields are written only by the update operation (parameter i → field i) and the hand-blind record only where the hand is started; (R5) opening refuses on a break before rotating or numbering, the pause predicate consults the break predicate, a table created on a break starts paused. NOT decided: arbitrary unsynchronised update schedules beyond the single-read rule.",
 		Rules: map[string]string{
 			"R1": "field-to-field copy for hand options and the published hand blinds",
